@@ -79,9 +79,11 @@ func VerifC12_SyncFaults() {
 	w.Srv.FaultCountsGets = true
 	w.Srv.FaultAt, w.Srv.FaultKind = pos, kind
 
+	fp := verifFingerprint(verifListerItems(s.pc), nil)
 	s.pc.Queue.Items = append(s.pc.Queue.Items, "ns/p")
 	more := s.pc.processNextWorkItem()
 	rt.Assert(more, "worker-stops-after-a-sync")
+	fp.AssertUnchanged("C17/cache-object-mutated-by-failing-sync")
 
 	// which request was hit?
 	var hit *env.Req
